@@ -110,6 +110,9 @@ impl InnerLocustDB {
             walflush_threadpool: ThreadPool::new(opts.wal_flush_compaction_threads),
         });
 
+        #[cfg(feature = "verif")]
+        crate::verif::LIVE_INSTANCES.fetch_add(1, Ordering::SeqCst);
+
         InnerLocustDB::start_worker_threads(&locustdb);
 
         let _ = locustdb.create_if_empty_no_ingest("_meta_tables");
@@ -241,6 +244,8 @@ impl InnerLocustDB {
             log::warn!("wal size limit exceeded, blocking ingestion");
             wal_size = wal_condvar.wait(wal_size).unwrap();
         }
+        #[cfg(feature = "verif")]
+        crate::verif::sync_point("ingest:locked", "");
 
         let mut _meta_tables_rows = vec![];
         let mut _new_column_rows = vec![];
@@ -309,6 +314,8 @@ impl InnerLocustDB {
             })
         });
         for (table, data) in events.tables {
+            #[cfg(feature = "verif")]
+            crate::verif::sync_point("ingest:before_table", &table);
             let tables = self.tables.read().unwrap();
             let table = tables.get(&table).unwrap();
             let rows = data.len() as u64;
@@ -320,11 +327,15 @@ impl InnerLocustDB {
                 .collect();
             table.ingest_homogeneous(columns);
         }
+        #[cfg(feature = "verif")]
+        crate::verif::sync_point("ingest:buffered", "");
 
         if let Some(jh) = bytes_written_join_handle {
             let bytes_written = jh.join().unwrap();
             *wal_size += bytes_written;
         }
+        #[cfg(feature = "verif")]
+        crate::verif::sync_point("ingest:wal_written", "");
         wal_condvar.notify_all();
     }
 
@@ -342,6 +353,8 @@ impl InnerLocustDB {
         let span_freeze_buffers = tracer.start_span("freeze_buffers");
         let tables;
         let unflushed_wal_ids;
+        #[cfg(feature = "verif")]
+        crate::verif::sync_point("flush:before_freeze", "");
         {
             let (wal_size, wal_condvar) = &self.wal_size;
             let mut wal_size = wal_size.lock().unwrap();
@@ -364,6 +377,8 @@ impl InnerLocustDB {
             wal_condvar.notify_all();
         }
         tracer.end_span(span_freeze_buffers);
+        #[cfg(feature = "verif")]
+        crate::verif::sync_point("flush:after_freeze", "");
 
         // Iterate over all tables and create new partitions from frozen buffers.
         let span_batching = tracer.start_span("batching");
@@ -387,11 +402,15 @@ impl InnerLocustDB {
             }
         }
         tracer.end_span(span_batching);
+        #[cfg(feature = "verif")]
+        crate::verif::sync_point("flush:after_batching", "");
 
         // Persist new partitions
         if let Some(storage) = self.storage.as_ref() {
             storage.persist_partitions(new_partitions, &mut tracer);
         }
+        #[cfg(feature = "verif")]
+        crate::verif::sync_point("flush:partitions_persisted", "");
 
         // Write new segments from compactions to storage and apply compaction in-memory
         let span_compaction = tracer.start_span("compaction");
@@ -428,13 +447,21 @@ impl InnerLocustDB {
             tracer.push_tracer(compaction_tracer);
         }
         tracer.end_span(span_compaction);
+        #[cfg(feature = "verif")]
+        crate::verif::sync_point("flush:after_compaction", "");
 
         // Update metastore and clean up orphaned partitions and WAL segments
         if let Some(storage) = self.storage.as_ref() {
             storage.persist_metastore(unflushed_wal_ids.end, &mut tracer);
+            #[cfg(feature = "verif")]
+            crate::verif::sync_point("flush:metastore_persisted", "");
             storage.delete_orphaned_partitions(partitions_to_delete, &mut tracer);
+            #[cfg(feature = "verif")]
+            crate::verif::sync_point("flush:orphans_deleted", "");
             storage.delete_wal_segments(unflushed_wal_ids, &mut tracer);
         }
+        #[cfg(feature = "verif")]
+        crate::verif::sync_point("flush:done", "");
 
         tracer.end_span(span_wal_flush);
 
@@ -518,6 +545,8 @@ impl InnerLocustDB {
         let mut maybe_compaction = None;
 
         if let Some(partition) = table.batch() {
+            #[cfg(feature = "verif")]
+            crate::verif::sync_point("flush:table_batched", table.name());
             let columns: Vec<_> = partition
                 .clone_column_handles()
                 .into_iter()
@@ -573,6 +602,8 @@ impl InnerLocustDB {
         // TODO: ensure parts is sorted correctly
         let data = table.snapshot_parts(parts);
         tracer.end_span(span_snapshot_partitions);
+        #[cfg(feature = "verif")]
+        crate::verif::sync_point("compact:snapshotted", table.name());
 
         let span_build_columns = tracer.start_span("build_columns");
         let mut columns = Vec::with_capacity(colnames.len());
@@ -661,7 +692,11 @@ impl InnerLocustDB {
 
         // replace old partitions with new partition
         let span_compact_partitions = tracer.start_span("compact_partitions");
+        #[cfg(feature = "verif")]
+        crate::verif::sync_point("compact:before_swap", table.name());
         table.compact(id, range.start, columns, parts);
+        #[cfg(feature = "verif")]
+        crate::verif::sync_point("compact:after_swap", table.name());
         tracer.end_span(span_compact_partitions);
 
         // write new subpartitions to disk and update in-memory metastore
@@ -678,6 +713,8 @@ impl InnerLocustDB {
             (table.name().to_string(), to_delete)
         });
         tracer.end_span(span_prepare_compact);
+        #[cfg(feature = "verif")]
+        crate::verif::sync_point("compact:prepared", table.name());
 
         (to_delete, tracer)
     }
@@ -959,6 +996,38 @@ impl InnerLocustDB {
         &self.opts
     }
 
+    #[cfg(feature = "verif")]
+    pub fn verif_catalogue(&self) -> Option<Vec<crate::verif::VerifPartition>> {
+        self.storage.as_ref().map(|storage| {
+            let meta_store = storage.meta_store().read().unwrap();
+            meta_store
+                .partitions()
+                .map(|p| crate::verif::VerifPartition {
+                    table: p.tablename.clone(),
+                    id: p.id,
+                    offset: p.offset,
+                    len: p.len,
+                    subpartitions: p
+                        .subpartitions
+                        .iter()
+                        .map(|s| (s.subpartition_key.clone(), s.last_column.clone()))
+                        .collect(),
+                })
+                .collect()
+        })
+    }
+
+    /// (earliest unflushed WAL id, next WAL id, accounted WAL size in bytes)
+    #[cfg(feature = "verif")]
+    pub fn verif_wal(&self) -> (u64, u64, u64) {
+        let ids = self
+            .storage
+            .as_ref()
+            .map(|s| s.unflushed_wal_ids())
+            .unwrap_or(0..0);
+        (ids.start, ids.end, *self.wal_size.0.lock().unwrap())
+    }
+
     pub fn disk_read_scheduler(&self) -> &Arc<DiskReadScheduler> {
         &self.disk_read_scheduler
     }
@@ -1007,6 +1076,8 @@ impl InnerLocustDB {
 impl Drop for InnerLocustDB {
     fn drop(&mut self) {
         info!("Stopped");
+        #[cfg(feature = "verif")]
+        crate::verif::LIVE_INSTANCES.fetch_sub(1, Ordering::SeqCst);
     }
 }
 
